@@ -55,7 +55,7 @@ Record outp := O { o_val : Z; o_asset : bool; o_pfx : Z; o_spec : bool; o_type :
 Inductive kind :=
 | KStd        (* per-output loop: default checker and the four copies *)
 | KNone       (* "no cost transactions should have no output" *)
-| KActivate.  (* ActivateProducer: no outputs up to NFTStartHeight, unchecked after *)
+| KActivate.  (* ActivateProducer: no outputs up to NFTStartHeight, optional checked outputs after *)
 
 Record params := P { p_height : Z;      (* block height *)
                      p_cah : Z;         (* config.DefaultParams.CheckAddressHeight *)
@@ -79,7 +79,11 @@ Definition check_outputs (k : kind) (pr : params) (outs : list outp) : bool :=
   match k with
   | KStd => (n <=? 65535) && (1 <=? n) && forallb (std_output_ok pr) outs
   | KNone => n =? 0
-  | KActivate => if p_height pr <=? p_nft pr then n =? 0 else true
+  | KActivate =>
+      (* up to NFTStartHeight: no outputs; after it outputs are optional and, if
+         present, go through DefaultChecker.CheckTransactionOutput (repair 8c6b2cdf) *)
+      if p_height pr <=? p_nft pr then n =? 0
+      else (n =? 0) || ((n <=? 65535) && (1 <=? n) && forallb (std_output_ok pr) outs)
   end.
 
 (* CheckTransactionFee: Some fee = accepted (and the fee recorded by SetFee) *)
